@@ -1,8 +1,10 @@
 //! Engine E6 `sim`: C31, C34, C36-C40 against `hydro_lang::sim` (see /verif/DESIGN.md).
 
+mod c38;
 mod experiments;
 mod hookchecks;
 mod hooklevel;
+mod progchecks;
 mod proglevel;
 mod tape;
 mod util;
@@ -13,15 +15,29 @@ fn main() {
     let args = Args::parse();
     util::install_panic_hook();
     colored::control::set_override(false);
+    if let Some(job) = args.extra.get("child") {
+        c38::child_main(job);
+    }
     let mut ctx = Ctx::new(args);
     match ctx.prop().to_string().as_str() {
         "C36" => {
             ctx.rule = "hook level: every scenario = hook kind(s) of one tick/observation x layout of <=4 (thorough 5) uniquely numbered items over <=2 keys / 2 merge inputs x split into <=3 instalments x 1-2 scheduling attempts per instalment, resolved through the scheduler's run_hooks (and, for solo hooks, through the bare SimHook API with both force values); ALL decision tapes of a scenario are enumerated depth-first by the harness driver; proptest scenarios (5-9 items, <=3 hooks, 3 keys) with sampled tapes beyond. Non-trivial: some tape of the scenario splits a queue of >=3 items into >=2 releases (snapshots: skips to a newer version with >=2 pending). Distinct: structural hash of the scenario.".into();
             hookchecks::c36_hooks(&mut ctx);
+            let progs = progchecks::Progs::default();
+            progchecks::c36_programs(&mut ctx, &progs);
+            progchecks::c36_passthrough_pair(&mut ctx);
+            ctx.extra.insert("sim_compile_secs".into(), progs.compile_secs.get().into());
         }
         "C37" => {
             ctx.rule = "hook level: for every enumerated scenario (same space as C36) the set of outcomes (sequence of normalised releases) reached over all decision tapes, and over all inputs of bolero's exhaustive driver, is compared for equality with the outcome set of an independent reference model. Non-trivial: outcome set with >=5 elements.".into();
             hookchecks::c37_hooks(&mut ctx);
+            let progs = progchecks::Progs::default();
+            progchecks::c37_programs(&mut ctx, &progs);
+            ctx.extra.insert("sim_compile_secs".into(), progs.compile_secs.get().into());
+        }
+        "C38" => {
+            ctx.rule = "corpus of 13 simulator programs (ordered/unordered/keyed batches, slices with snapshots, hooked top-level fold, two ticks, top-level and in-tick ordering observations, 3-member cluster relay over fail-stop TCP, quorum helper, atomic keyed counter, 3-member raft) x proptest decision tapes (0..4096 bytes; bolero's byte driver pads with zeros); each tape is replayed with CompiledSim::fuzz_repro + run_with_scheduler_and_logger twice in this process and (per program, batches of tapes) once in a freshly spawned process; decision log (colour off), outputs and verdict are compared. Non-trivial: the decision log has >=5 non-trivial decisions. Distinct: hash of (program, tape).".into();
+            c38::run(&mut ctx);
         }
         "X-exp" => {
             experiments::run();
